@@ -16,7 +16,8 @@ QUICK_BASES_11 = ["frame", "frame_index", "frame_multi", "series", "series_index
 def plan_shards(tier, parsers=False, bases=None, nshards_big=48, quick_pairs=("frame",), extra=None,
                 thorough_combos=((1, 2), (2, 1), (2, 2))):
     cases = []
-    bases = bases or QUICK_BASES_11
+    if bases is None:
+        bases = QUICK_BASES_11 + (["frame_parsing"] if parsers else [])
     for b in bases:
         for sh in range(4):
             cases.append({"base": b, "ks": 1, "kd": 1, "shard": [sh, 4], "parsers": parsers, "rich": True})
